@@ -352,6 +352,41 @@ def tune_targets():
             T('tune_task', [task, store(), extra(), lpath()], TUNE_H, pre=pre)]
 
 
+# ------------------------------------------------------------------------------------------ fitted weak learners: predict
+WL_H = 'specs/C18/wlearner2.h'
+WTYPES = [(r'^nano::(stump|affine|hinge|table|dense_table|dtree|single_feature)_wlearner_t$|^nano::wlearner_t$', 'struct nv_wl'),
+          (r'^nano::dataset_t$', 'struct nv_dataset_o'), (r'^nano::hinge_type$', 'int32_t')]
+WL_ERASED = frame.ERASED + [r'^(nano::)?dtree_nodes_t$', r'^std::vector<nano::dtree_node_t', r'^(nano::)?hashes_t$', r'^(nano::)?logger_t$']
+
+
+def wlearner_targets():
+    ts = []
+
+    def layout(tu, cls):
+        short = cls.split('::')[-1]
+        bases = dict(CLONABLE)
+        lay = frame.Layout([dict(tu=tu, cls=cls, cname='struct nv_wl', bases=bases)], types=WTYPES, base_tu=tu)
+
+        def pre():
+            text, info = lay.text()
+            return f'#include "{astload.VERIF}/specs/C18/wlearner.h"\n' + text, info
+        return pre
+
+    def common():
+        track = frame.make_track()
+        return dict(types=WTYPES, opaque=WL_ERASED, hooks=[track.expr_hook], stmt_hooks=[track.stmt_hook], uf_float=False, self_struct='struct nv_wl',
+                    calls=PURE, members=[(r'^split\|nano::wlearner_t', 'nv_wl_split({self}, {&0}, {1})')])
+    ops = [('stump_predict_op', 'src/wlearner/stump.cpp', 'nano::stump_wlearner_t', 0), ('affine_predict_op', 'src/wlearner/affine.cpp', 'nano::affine_wlearner_t', 0),
+           ('hinge_predict_op_left', 'src/wlearner/hinge.cpp', 'nano::hinge_wlearner_t', 0), ('hinge_predict_op_right', 'src/wlearner/hinge.cpp', 'nano::hinge_wlearner_t', 1),
+           ('table_predict_op', 'src/wlearner/table.cpp', 'nano::table_wlearner_t', 0)]
+    for cname, tu, cls, li in ops:
+        f = Fn(cname, tu, 'do_predict', flt=cls, lambda_index=li, captures=True, **common())
+        ts.append(T(cname, [f], WL_H, pre=layout(tu, cls), enums=[(tu, 'nano::hinge_type')] if 'hinge' in cname else []))
+    f = Fn('dtree_do_predict', 'src/wlearner/dtree.cpp', 'do_predict', flt='nano::dtree_wlearner_t', **common())
+    ts.append(T('dtree_do_predict', [f], WL_H, pre=layout('src/wlearner/dtree.cpp', 'nano::dtree_wlearner_t'), replace=['nv_wl_split']))
+    return ts
+
+
 def build(tier):
-    targets = solver_targets() + iterator_targets() + objective_targets() + loss_targets() + tune_targets()
+    targets = solver_targets() + iterator_targets() + objective_targets() + loss_targets() + tune_targets() + wlearner_targets()
     return {'targets': targets, 'vcs': [], 'decided': [], 'not_decided': [], 'assumptions': [], 'trusted': []}
